@@ -9,7 +9,7 @@ from ..values import SymBool, SymInt, tobool, toint
 from .. import loader, oracles
 from . import tok
 
-BOUNDS = {"quick": dict(N=5, N1=3, N2=3), "thorough": dict(N=8, N1=4, N2=6)}
+BOUNDS = {"quick": dict(N=5, N1=3, N2=3), "thorough": dict(N=7, N1=3, N2=5)}
 I = z3.Int
 
 
